@@ -48,7 +48,7 @@ end
 
 def effSafe (ge : GEnv) (g : Gate) : Eff → Bool
   | .emit op => !g.gated op
-  | .loopBegin | .loopEnd | .flagsPush | .flagsPop | .addErr | .flagsSwitch => true
+  | .loopBegin | .loopEnd | .codePush | .codePop | .flagsPush | .flagsPop | .addErr | .flagsSwitch => true
   | .breakCont => !g.gated ge.bpop && !g.gated ge.jmp
   | .setFlag f v => f != g.flag || v == g.blocked
   | .consumeCustom => true
@@ -328,6 +328,8 @@ theorem runEff_good (env : Env) (g : Gate) (e : Eff) (s : PState) (hs : effSafe 
     exact ⟨h.cfg, h.stack, by intro o ho; simp only [runEff, List.mem_cons] at ho; rcases ho with ho | ho; (· subst ho; exact hs); (· exact h.trace o ho), h.m1, h.m2⟩
   | loopBegin => exact ⟨h.cfg, h.stack, h.trace, h.m1, h.m2⟩
   | loopEnd => exact ⟨h.cfg, h.stack, h.trace, h.m1, h.m2⟩
+  | codePush => exact ⟨h.cfg, h.stack, h.trace, h.m1, h.m2⟩
+  | codePop => simp only [runEff]; split <;> exact ⟨h.cfg, h.stack, h.trace, h.m1, h.m2⟩
   | breakCont =>
     simp only [effSafe, Bool.and_eq_true, Bool.not_eq_true'] at hs
     simp only [runEff]
